@@ -848,6 +848,10 @@ def comps_of_recipe(r):
         return v_dot(comps_of_recipe(r[1]), v_cross(comps_of_recipe(r[2]), comps_of_recipe(r[3])))
     if t == "norm":
         return _cs("N[" + coq_of_recipe(r[1]) + "]")
+    if t == "ssqrt":
+        return sympy.sqrt(comps_of_recipe(r[1]))
+    if t == "slog":
+        return sympy.log(comps_of_recipe(r[1]))
     raise Unsupported(t)
 
 
